@@ -31,12 +31,23 @@
 //   walk_nlri(kind, opts, buf, span) -> Result<Vec<NlriItem>, String>
 //       NlriItem { span, path_id, len_field, labels, rd, prefix_bits, prefix, evpn_type, fields }
 //   update_nlri_fields(buf, &Frame, addpath) -> Result<Vec<FieldRef>, String>
-//   walk_tlvs(buf, span, type_width, len_width, kind_t, kind_l) -> Result<Vec<Tlv>, String>
-//       generic TLV stream (LS: 2/2, prefix-SID: 1/2, tunnel-encap outer: 2/2)
+//   walk_tlvs(buf, span, type_width, len_width, &mut fields) -> Result<Vec<Tlv>, String>
+//       generic TLV stream (LS: 2/2, prefix-SID: 1/2, tunnel-encap outer: 2/2);
+//       appends TlvType / TlvLen FieldRefs; Tlv { off, typ, value: Span }
 // BMP (RFC 7854 §4, RFC 8671 §4, RFC 9069 §4)
 //   read_bmp(buf) -> Result<BmpMsg, String>                  one message at buf[0..]
+//       BmpMsg { version, length, msg_type, per_peer: Option<BmpPerPeer>, body, fields }
+//       BmpBody::{RouteMonitoring{pdus}, StatsReport, PeerDown{reason,..}, PeerUp{..,
+//       sent_open, recv_open, info}, Initiation, Termination, RouteMirroring}
+//       RouteMonitoring lists EVERY BGP frame found after the per-peer header so the
+//       caller can assert "exactly one" (RFC 7854 §4.6)
 // MRT (RFC 6396 §2-4, RFC 8050 §3-4)
 //   read_mrt(buf) -> Result<MrtRecord, String>               one record at buf[0..]
+//       MrtBody::{Bgp4mpMessage{as4, local, addpath, .., pdu}, Bgp4mpStateChange,
+//       PeerIndexTable{peers}, Rib{afi, safi, addpath, prefix, entries}, Other}
+//       BGP4MP subtypes per RFC 6396 §4.4 / RFC 8050 §3: 1 MESSAGE, 4 MESSAGE_AS4,
+//       6 LOCAL, 7 AS4_LOCAL, 8 MESSAGE_ADDPATH (2-byte AS), 9 MESSAGE_AS4_ADDPATH, 10, 11
+//   mrt_mp_reach_nexthop(buf, &Attr) -> Result<Span, String>  RFC 6396 §4.3.4 short form
 // RTR (RFC 6810 §5, RFC 8210 §5, draft-ietf-sidrops-8210bis for version 2)
 //   read_rtr(buf) -> Result<RtrPdu, String>                  one PDU at buf[0..]
 //   rtr_fixed_len(version, pdu_type) -> Option<u32>
